@@ -26,7 +26,7 @@ Dict == << "r0", "r16", "r31", "r32", "X", "Y+", "-Z", "Y+5", "Z+63", "X+1",
            "-1", "256", "65536", "4194304", "9223372036854775807", "-9223372036854775807",
            "", "9223372036854775808", "99999999999999999999999", "1<<64", "1/0", "-9223372036854775807-2",
            "(", "((1)", "@9", "\"unterminated", "''", "exp2(70)", "nosuchfn(1)", "~", "0x", "a = b", "=",
-           "ATmega48", "a = a" >>
+           "ATmega48", "a = a", "(1<<63) % -1", "(1<<63) / -1", "-(1<<63)", "1<<63>>63", "5 % -1" >>
 
 Outcomes == {"ok", "err", "panic", "abort", "timeout", "oom", "shape"}
 Total(outcome) == outcome \in {"ok", "err"}
